@@ -47,10 +47,12 @@ def _affine(coeffs, params):
 
 
 class DecisionOb(SmtOb):
-    def __init__(self, oid, nparams, pairs, info):
+    def __init__(self, oid, nparams, pairs, info, xcheck_every=0):
         super().__init__()
         self.oid, self.nparams, self.pairs, self.info = oid, nparams, pairs, info
         self.params, self.samples = [], []
+        self.xcheck_every = xcheck_every
+        self.stats = {"cvc5_agree": 0, "cvc5_unknown": 0, "cvc5_disagree": 0} if xcheck_every else {}
 
     def _decide_real(self, c1, c2):
         import pytato as pt
@@ -102,12 +104,23 @@ class DecisionOb(SmtOb):
                 r = s.check()
                 ts += time.time() - t1
                 nq += 1
+                if self.xcheck_every and nq % self.xcheck_every == 0 and str(r) in ("sat", "unsat"):
+                    from pv.sem.crosscheck import cvc5_verdict
+                    v = cvc5_verdict(s, timeout_s=10)
+                    key = "cvc5_unknown" if v not in ("sat", "unsat") else "cvc5_agree" if v == str(r) else "cvc5_disagree"
+                    self.stats[key] += 1
+                    if key == "cvc5_disagree":
+                        s.pop()
+                        raise RuntimeError(f"solver disagreement: z3 {r}, cvc5 {v}")
                 s.pop()
                 if str(r) not in ("sat", "unsat"):
                     raise RuntimeError("z3 unknown")
                 return str(r) == "unsat"
-            eq = always(z1 == z2)
-            one1, one2 = always(z1 == 1), always(z2 == 1)
+            try:
+                eq = always(z1 == z2)
+                one1, one2 = always(z1 == 1), always(z2 == 1)
+            except RuntimeError as e:
+                return {"status": "inconclusive", "reason": str(e), "solver_queries": nq, "solver_s": round(ts, 3)}
             real = self._decide_real(c1, c2)
             bad = None
             if real["eq"] != eq or real["eq_rev"] != eq or real["shapes"] != eq:
@@ -145,7 +158,7 @@ class DecisionOb(SmtOb):
         return bad or bool(args.get("what")), {"real_code": real, "witness": differ, "what": args.get("what")}
 
 
-def decision_job(nparams: int, chunk: int, nchunks: int, sample: int, seed: int) -> JobOut:
+def decision_job(nparams: int, chunk: int, nchunks: int, sample: int, seed: int, xcheck: int = 0) -> JobOut:
     coeffs = list(itertools.product(range(-3, 4), repeat=nparams + 1))
     allpairs = [(a, b) for a in coeffs for b in coeffs]
     if sample and sample < len(allpairs):
@@ -161,7 +174,8 @@ def decision_job(nparams: int, chunk: int, nchunks: int, sample: int, seed: int)
     ob = DecisionOb(f"decisions/{nparams}params/chunk{chunk}", nparams, pairs,
                     {"size parameters": nparams, "coefficient grid": "[-3,3]", "pairs": len(pairs),
                      "decisions": "are_shape_components_equal (both orders), are_shapes_equal, stack, broadcasting",
-                     "solver question": "exists params >= 0: e1 != e2 (and: is e_k == 1 for all params)"})
+                     "solver question": "exists params >= 0: e1 != e2 (and: is e_k == 1 for all params)"},
+                    xcheck_every=xcheck)
     return JobOut(obs=[ob])
 
 
@@ -178,6 +192,12 @@ def sym_program_job(prog: str) -> JobOut:
         outs, ins, S = C.build_sym_pytato(P)
     except NotImplementedError as e:
         return JobOut(declined=f"documented refusal: {e}")
+    except Exception as e:  # noqa: BLE001
+        # every program of the committed corpus is accepted by NumPy for every size: a refusal here means shape
+        # components equal for all sizes were treated as different (or an inferred shape is wrong)
+        import traceback
+        return JobOut(sides=[Side(f"{prog}/program-valid-for-every-size-is-accepted", False,
+                                  f"{type(e).__name__}: {e}\n{traceback.format_exc(limit=4)}")])
     sides = []
     try:
         dag = pt.transform.deduplicate(pt.make_dict_of_named_arrays(outs))
@@ -293,10 +313,11 @@ def sym_program_job(prog: str) -> JobOut:
 def jobs(tier: str, seed: int):
     th = tier == "thorough"
     J = []
-    J += [Job(MOD, "decision_job", {"nparams": 1, "chunk": c, "nchunks": 8, "sample": 0, "seed": seed},
+    xc = 40 if th else 0
+    J += [Job(MOD, "decision_job", {"nparams": 1, "chunk": c, "nchunks": 8, "sample": 0, "seed": seed, "xcheck": xc},
               jid=f"decisions/1/{c}", hard_timeout=900) for c in range(8)]
     for npar, sample in ((2, 6000 if th else 1200), (3, 6000 if th else 800)):
-        J += [Job(MOD, "decision_job", {"nparams": npar, "chunk": c, "nchunks": 8, "sample": sample, "seed": seed},
+        J += [Job(MOD, "decision_job", {"nparams": npar, "chunk": c, "nchunks": 8, "sample": sample, "seed": seed, "xcheck": xc},
                   jid=f"decisions/{npar}/{c}", hard_timeout=900) for c in range(8)]
     for P in C.SYM_CORPUS:
         J.append(Job(MOD, "sym_program_job", {"prog": P.name}, jid=f"{P.name}", hard_timeout=1200))
